@@ -33,7 +33,9 @@ if [ $need = 1 ]; then
   for f in $R/build/extract/*.ml; do b=$(basename $f .ml); mods="$mods $b.mli $b.ml"; done
   hs=""
   for f in $R/driver/h_*.ml; do [ -f "$f" ] && hs="$hs $(basename $f)"; done
-  ocamlfind ocamlopt -O3 -w -a -package str $mods conv.ml $hs handlers.ml driver.ml -o vdriver.new 2>build.log || \
-  ocamlfind ocamlopt -w -a $mods conv.ml $hs handlers.ml driver.ml -o vdriver.new 2>build.log || { cat build.log; exit 1; }
+  # hall.ml (generated): installs the handlers of every h_*.ml module
+  { echo "let install register ="; for h in $hs; do m=$(basename $h .ml); echo "  ${m^}.install register;"; done; echo "  ()"; } > hall.ml
+  ocamlfind ocamlopt -O3 -w -a -package str $mods conv.ml $hs hall.ml handlers.ml driver.ml -o vdriver.new 2>build.log || \
+  ocamlfind ocamlopt -w -a $mods conv.ml $hs hall.ml handlers.ml driver.ml -o vdriver.new 2>build.log || { cat build.log; exit 1; }
   mv vdriver.new vdriver
 fi
